@@ -1,6 +1,7 @@
 package zap
 
 import (
+	"encoding/binary"
 	"fmt"
 
 	index "github.com/blevesearch/bleve_index_api"
@@ -154,12 +155,40 @@ func H20_openfail() {
 	sb, _, _ := vSmallSegment()
 	path := vP("o.zap")
 	vAssert(sb.Persist(path) == nil, "persist")
+	kind := vChoice("kind", 3)
+	var z ZapPlugin
+	if kind == 2 {
+		// a failure after the file has been opened and mapped: a pre-sections (footer version 15) file with one
+		// field and one document whose doc-value index starts with an overflowing uvarint - Open gets as far
+		// as loading the doc-value readers and fails there
+		var b []byte
+		b = append(b, 0, 1, 'f') // field record at 0: dictionary location 0, name length 1, "f"
+		dvOffset := uint64(len(b))
+		for i := 0; i < binary.MaxVarintLen64; i++ {
+			b = append(b, 0xff)
+		}
+		fieldsIndexOffset := uint64(len(b))
+		b = binary.BigEndian.AppendUint64(b, 0) // fields index: address of field 0's record
+		b = binary.BigEndian.AppendUint64(b, 1) // numDocs
+		b = binary.BigEndian.AppendUint64(b, 0) // storedIndexOffset
+		b = binary.BigEndian.AppendUint64(b, fieldsIndexOffset)
+		b = binary.BigEndian.AppendUint64(b, dvOffset)
+		b = binary.BigEndian.AppendUint32(b, 1024) // chunkMode
+		b = binary.BigEndian.AppendUint32(b, 15)   // version
+		b = binary.BigEndian.AppendUint32(b, 0)    // crc
+		bad := vP("legacy.zap")
+		vFSPut(bad, b)
+		_, err := z.Open(bad)
+		vAssert(err != nil, "load-fails")
+		vAssert(vFSOpenHandles() == 0, "failed-load-closed")
+		vAssert(vFSLiveMappings() == 0, "failed-load-unmapped")
+		return
+	}
 	if !vSymbolic() {
 		return // the open / mmap failures exist only in the model
 	}
 	kinds := []string{"open", "mmap"}
-	vFSFailOpen(kinds[vChoice("kind", 2)])
-	var z ZapPlugin
+	vFSFailOpen(kinds[kind])
 	_, err := z.Open(path)
 	vAssert(err != nil, "open-fails")
 	vAssert(vFSOpenHandles() == 0, "failed-open-closed")
